@@ -524,9 +524,31 @@ Lemma new_group_fixed n o p :
   get ABlend (new_group fixed_cfg n o p) = VInt bm_pass.
 Proof. repeat split. Qed.
 
-Lemma new_pixel_ok att n t l w h dw dh p :
-  divider_ok (new_pixel att n t l w h dw dh p) = true /\ divider_signed (new_pixel att n t l w h dw dh p) = true.
+Lemma new_pixel_ok c att n t l w h dw dh p :
+  divider_ok (new_pixel c att n t l w h dw dh p) = true /\ divider_signed (new_pixel c att n t l w h dw dh p) = true.
 Proof. split; reflexivity. Qed.
+
+(* since cc4d99c a created layer can be written whatever its name (shorter than 256 characters) is *)
+Lemma legacy_name_macroman v : macroman (legacy_name v) = true.
+Proof. unfold legacy_name. destruct (macroman v) eqn:M; [exact M|reflexivity]. Qed.
+
+Lemma legacy_name_length v : length (legacy_name v) = length v \/ length (legacy_name v) = 1%nat.
+Proof. unfold legacy_name. destruct (macroman v); [left|right]; reflexivity. Qed.
+
+Lemma new_group_name_writable n o p :
+  Z.of_nat (length n) < 256 -> name_writable (new_group fixed_cfg n o p) = true /\ get AName (new_group fixed_cfg n o p) = VStr n.
+Proof.
+  intro L. split; [|reflexivity]. unfold name_writable. simpl. rewrite legacy_name_macroman. simpl.
+  apply Z.leb_le. destruct (legacy_name_length n) as [E|E]; rewrite E; simpl; lia.
+Qed.
+
+Lemma new_pixel_name_writable att n t l w h dw dh p :
+  Z.of_nat (length n) < 256 ->
+  name_writable (new_pixel fixed_cfg att n t l w h dw dh p) = true /\ get AName (new_pixel fixed_cfg att n t l w h dw dh p) = VStr n.
+Proof.
+  intro L. split; [|reflexivity]. unfold name_writable. simpl. rewrite legacy_name_macroman. simpl.
+  apply Z.leb_le. destruct (legacy_name_length n) as [E|E]; rewrite E; simpl; lia.
+Qed.
 
 (* ------------------------------------------------------------------ a whole history, then save + open *)
 Lemma history_persist (save_open : layer -> ares layer) :
